@@ -226,6 +226,20 @@ func init() {
 						}
 					}
 				}
+				for _, C := range []int{8, 9, 17} { // many channels
+					ws := []side{{3, 0, 3, 0}, {3, 1, 2, 0}, {3, 0, 2, C - 1}, {3, 1, 1, 1}}
+					for _, a := range ws {
+						for _, b := range ws {
+							cs := c05Case{S: tn(jb.s), D: tn(jb.d), C: C, SP: a.P, SX: a.X, SL: a.L, SR: a.R, DP: b.P, DX: b.X, DL: b.L, DR: b.R, Rot: rot}
+							rot++
+							n++
+							nt++
+							if fs := c05Run(cs); len(fs) > 0 {
+								c.Fail(cs, fs...)
+							}
+						}
+					}
+				}
 				c.Eval(n, nt)
 			})
 			c.Sample(c05Case{S: "float64", D: "int16", C: 2, SP: 3, SX: 1, SL: 1, SR: 1, DP: 2, DX: 0, DL: 2, Rot: 5})
